@@ -509,14 +509,28 @@ theorem readSpec_readByte [DecidableEq α] {q : Q α} (h : AllF q.items) :
     · exact Or.inr ⟨bs, h1, h2, by simpa using h3⟩
 
 theorem readSpec_until [DecidableEq α] {q : Q α} (h : AllF q.items) (c : α) :
-    ReadSpec q (specStep q (.until c)) (fun _ => True) := by
+    ReadSpec q (specStep q (.until c)) (fun bs => bs.idxOf? c = some (bs.length - 1)) := by
   simp only [specStep]
   split
   · exact Or.inl rfl
-  · rename_i i _
+  · rename_i i hi
     rcases takeRead_took h ((i : Int) + 1) with ⟨h1, _⟩ | ⟨bs, h1, h2, h3, _⟩
     · exact Or.inl h1
-    · exact Or.inr ⟨bs, h1, h2, trivial⟩
+    · refine Or.inr ⟨bs, h1, h2, ?_⟩
+      have h3' : bs.length = i + 1 := by omega
+      obtain ⟨hlt, hci, hnot⟩ := List.idxOf?_eq_some_iff.1 hi
+      show bs.idxOf? c = some (bs.length - 1)
+      rw [List.idxOf?_eq_some_iff]
+      have hbi : ∀ j (hj : j < bs.length), bs[j] = q.flushedBytes[j]'(by omega) := by
+        intro j hj
+        have : bs[j] = (q.flushedBytes.take bs.length)[j]'(by rw [← h2]; exact hj) := by congr 1
+        rw [this, List.getElem_take]
+      refine ⟨by omega, ?_, ?_⟩
+      · rw [hbi _ (by omega)]
+        simp only [h3', Nat.add_sub_cancel]; exact hci
+      · intro j hj
+        rw [hbi _ (by omega)]
+        exact hnot j (by omega)
 
 theorem bufOp_err [DecidableEq α] {r : ZCReader α} {op : Op α} (c : Bool) (hi : r.inC = true) (hc : Contract r.q op = true)
     (hs : specStep r.q op = (r.q, .exact .err)) : r.bufOp op c = (r, .fail .buf) := by
@@ -640,9 +654,9 @@ theorem step_readByte :
 
 theorem step_until (c : α) :
     StepOK r (r.step b (.until c)) ∧ ∀ res, (r.step b (.until c)).2 = .ok res →
-      ∃ bs, res = .bytes bs ∧ Delivers r (r.step b (.until c)).1 bs := by
+      ∃ bs, res = .bytes bs ∧ bs.idxOf? c = some (bs.length - 1) ∧ Delivers r (r.step b (.until c)).1 bs := by
   show StepOK r (r.bufOp (.until c) true) ∧ ∀ res, (r.bufOp (.until c) true).2 = .ok res →
-      ∃ bs, res = .bytes bs ∧ Delivers r (r.bufOp (.until c) true).1 bs
+      ∃ bs, res = .bytes bs ∧ bs.idxOf? c = some (bs.length - 1) ∧ Delivers r (r.bufOp (.until c) true).1 bs
   obtain ⟨g2, hsrc, hcase⟩ := bufOp_consume hr ((contract_read hr.allF hr.flags).2.2.2.2.2.1 c) (readSpec_until hr.allF c)
   refine ⟨⟨g2, by rw [hsrc], by rw [hsrc]; exact Nat.le_refl _, ?_⟩, ?_⟩
   · intro e he
@@ -650,10 +664,10 @@ theorem step_until (c : α) :
     · exact h
     · rw [h] at he; cases he
   · intro res hres
-    rcases hcase with ⟨h, _⟩ | ⟨bs, h, _, hdel⟩
+    rcases hcase with ⟨h, _⟩ | ⟨bs, h, hL, hdel⟩
     · rw [h] at hres; cases hres
     · rw [h] at hres; cases hres
-      exact ⟨bs, rfl, hdel⟩
+      exact ⟨bs, rfl, hL, hdel⟩
 
 theorem step_release : r.step b .release = (r, .ok .unit) :=
   bufOp_pure hr.inC (contract_read hr.allF hr.flags).2.2.2.2.2.2.1 rfl (by simp)
@@ -773,6 +787,89 @@ theorem run_ok [DecidableEq α] [Inhabited α] (b : Nat) (ops : List (ROp α)) :
     obtain ⟨g, hst, hpos, _⟩ := step_ok hr b op
     obtain ⟨g2, hst2, hpos2⟩ := ih _ g
     exact ⟨g2, hst2.trans hst, Nat.le_trans hpos hpos2⟩
+
+/-! ## reader: padding is irrelevant, delivered only grows -/
+
+theorem round_pad_irrelevant [DecidableEq α] (i1 i2 : Inhabited α) {r : ZCReader α} (hr : RGood r) (b : Nat) :
+    @ZCReader.round α _ i1 b r = @ZCReader.round α _ i2 b r := by
+  cases hs : r.src.script with
+  | nil => rw [@round_nil α _ i1 r hr.allF hr.flags hs, @round_nil α _ i2 r hr.allF hr.flags hs]
+  | cons p rest => rw [@round_cons α _ i1 r hr.allF hr.flags p rest hs, @round_cons α _ i2 r hr.allF hr.flags p rest hs]
+
+theorem waitRead_pad_irrelevant [DecidableEq α] (i1 i2 : Inhabited α) (b : Nat) (n : Int) :
+    ∀ (fuel : Nat) (r : ZCReader α), RGood r →
+      @ZCReader.waitRead α _ i1 b fuel r n = @ZCReader.waitRead α _ i2 b fuel r n := by
+  intro fuel
+  induction fuel with
+  | zero => intro r _; rfl
+  | succ fuel ih =>
+    intro r hr
+    unfold ZCReader.waitRead
+    by_cases hlen : (r.q.len : Int) ≥ n
+    · rw [if_pos hlen, if_pos hlen]
+    · rw [if_neg hlen, if_neg hlen, round_pad_irrelevant i1 i2 hr b]
+      have hg := @round_good α _ i2 r hr b
+      cases hrd : @ZCReader.round α _ i2 b r with
+      | mk r' e =>
+        rw [hrd] at hg
+        cases e with
+        | some e => rfl
+        | none => exact ih r' hg
+
+theorem step_pad_irrelevant [DecidableEq α] (i1 i2 : Inhabited α) {r : ZCReader α} (hr : RGood r) (b : Nat) (op : ROp α) :
+    @ZCReader.step α _ i1 b r op = @ZCReader.step α _ i2 b r op := by
+  cases op <;> simp only [ZCReader.step, waitRead_pad_irrelevant i1 i2 b _ _ r hr]
+
+theorem run_pad_irrelevant [DecidableEq α] (i1 i2 : Inhabited α) (b : Nat) (ops : List (ROp α)) :
+    ∀ r : ZCReader α, RGood r → @ZCReader.run α _ i1 b r ops = @ZCReader.run α _ i2 b r ops := by
+  induction ops with
+  | nil => intro r _; rfl
+  | cons op ops ih =>
+    intro r hr
+    show @ZCReader.run α _ i1 b (@ZCReader.step α _ i1 b r op).1 ops = @ZCReader.run α _ i2 b (@ZCReader.step α _ i2 b r op).1 ops
+    rw [step_pad_irrelevant i1 i2 hr b op]
+    exact ih _ (@step_ok α _ i2 r hr b op).1
+
+theorem step_delivered_prefix [DecidableEq α] [Inhabited α] {r : ZCReader α} (hr : RGood r) (b : Nat) (op : ROp α) :
+    r.delivered <+: (r.step b op).1.delivered := by
+  have key : ∀ (out : ZCReader α × ARes α), StepOK r out →
+      (∀ res, out.2 = .ok res → ∃ bs, out.1.delivered = r.delivered ++ bs) → r.delivered <+: out.1.delivered := by
+    intro out hok h
+    cases hres : out.2 with
+    | ok res => obtain ⟨bs, hbs⟩ := h res hres; rw [hbs]; exact List.prefix_append _ _
+    | fail e => rw [hok.2.2.2 e hres]; exact List.prefix_refl _
+  cases op with
+  | next n =>
+    refine key _ (step_next hr b n).1 fun res h => ?_
+    obtain ⟨bs, _, _, _, hd⟩ := (step_next hr b n).2 res h; exact ⟨bs, hd⟩
+  | readBinary n =>
+    refine key _ (step_readBinary hr b n).1 fun res h => ?_
+    obtain ⟨bs, _, _, _, hd⟩ := (step_readBinary hr b n).2 res h; exact ⟨bs, hd⟩
+  | readByte =>
+    refine key _ (step_readByte hr b).1 fun res h => ?_
+    obtain ⟨bs, _, _, _, hd⟩ := (step_readByte hr b).2 res h; exact ⟨bs, hd⟩
+  | «until» c =>
+    refine key _ (step_until hr b c).1 fun res h => ?_
+    obtain ⟨bs, _, _, _, hd⟩ := (step_until hr b c).2 res h; exact ⟨bs, hd⟩
+  | skip n =>
+    refine key _ (step_skip hr b n).1 fun res h => ?_
+    obtain ⟨_, bs, _, _, hd⟩ := (step_skip hr b n).2 res h; exact ⟨bs, hd⟩
+  | peek n => rw [(step_peek hr b n).2.1]; exact List.prefix_refl _
+  | release => rw [step_release hr b]; exact List.prefix_refl _
+  | len => rw [step_len hr b]; exact List.prefix_refl _
+
+
+theorem run_delivered_prefix [DecidableEq α] [Inhabited α] (b : Nat) (ops : List (ROp α)) :
+    ∀ r : ZCReader α, RGood r → r.delivered <+: (r.run b ops).delivered := by
+  induction ops with
+  | nil => intro r _; exact List.prefix_refl _
+  | cons op ops ih =>
+    intro r hr
+    exact List.IsPrefix.trans (step_delivered_prefix hr b op) (ih _ (step_ok hr b op).1)
+
+theorem run_append [DecidableEq α] [Inhabited α] (b : Nat) (r : ZCReader α) (ops₁ ops₂ : List (ROp α)) :
+    r.run b (ops₁ ++ ops₂) = (r.run b ops₁).run b ops₂ := by
+  simp [ZCReader.run, List.foldl_append]
 
 /-! ## the writer -/
 
